@@ -21,10 +21,15 @@ type c14P struct {
 	Mix      mix    `json:"mix"`
 	Side     string `json:"side"`     // prefix | suffix | whole
 	Handlers int    `json:"handlers"` // 1..3
-	Fail     string `json:"fail"`     // none | error | panic
+	Fail     string `json:"fail"`     // none | error | panic | panic-int | panic-struct | panic-err | error-from | panic-from
 	FailH    int    `json:"fail_h"`   // offset of the failing height inside the range
 	FailJ    int    `json:"fail_j"`   // index of the failing handler
+	// Pre: what happened to the Store between registering the handlers and the judged deletion:
+	// "" nothing | restart (Stop+Start of the same object) | wipe (whole-chain DeleteRange, then the same heights appended again)
+	Pre string `json:"pre,omitempty"`
 }
+
+type c14PanicValue struct{ H uint64 }
 
 var errHandler = errors.New("c14: injected handler error")
 
@@ -72,8 +77,35 @@ func TestC14(t *testing.T) {
 							mon.Emit(r, "handlers", c14P{Mix: m, Side: side, Handlers: nh, Fail: kind, FailH: fh, FailJ: fj}, "handlers")
 							n++
 						}
+						if (fh+fj)%3 == 0 && n < budget {
+							// panics whose value is neither a string nor (always) an error
+							kind := []string{"panic-int", "panic-struct", "panic-err"}[(fh/3+fj+nh)%3]
+							mon.Emit(r, "handlers", c14P{Mix: m, Side: side, Handlers: nh, Fail: kind, FailH: fh, FailJ: fj}, "handlers")
+							n++
+						}
 					}
 				}
+			}
+		}
+	}
+	// handlers registered once must keep being called after the store was restarted or wiped and refilled
+	for mi, m := range mixes {
+		if mi >= 14 {
+			break
+		}
+		for _, pre := range []string{"restart", "wipe"} {
+			for _, side := range []string{"prefix", "whole"} {
+				mon.Emit(r, "handlers", c14P{Mix: m, Side: side, Handlers: 2, Fail: "none", Pre: pre}, "handlers")
+				mon.Emit(r, "handlers", c14P{Mix: m, Side: side, Handlers: 2, Fail: "error", FailH: 1, FailJ: 1, Pre: pre}, "handlers")
+			}
+		}
+	}
+	// bulk deletions on the parallel path in which every worker ends up failing: the call must still return
+	for _, fl := range []string{"plain", "ctx"} {
+		bulk := mix{Cfg: Cfg{SC: 64, IC: 64, WB: 64, Flavour: fl}, T0: 1, Batches: []int{r.N(400, 1500)}, Par: 10}
+		for _, kind := range []string{"error-from", "panic-from"} {
+			for _, fh := range []int{0, 1, 200} {
+				mon.Emit(r, "handlers", c14P{Mix: bulk, Side: "prefix", Handlers: 1, Fail: kind, FailH: fh, FailJ: 0}, "handlers")
 			}
 		}
 	}
@@ -88,9 +120,83 @@ func c14Run(c *mon.Case, p c14P) {
 			return
 		}
 		defer e.teardown()
+		var from, to, failAt uint64
+		var mu sync.Mutex
+		var log []hcall
+		callNo := -1 // -1: pre-phase (not judged)
+		armed := false
+		isPanic := strings.HasPrefix(p.Fail, "panic")
+		persistent := strings.HasSuffix(p.Fail, "-from")
+		for j := 0; j < p.Handlers; j++ {
+			j := j
+			e.st.OnDelete(func(ctx context.Context, h uint64) error {
+				rctx, cancel := context.WithTimeout(ctx, 20*time.Millisecond)
+				g, err := e.st.GetByHeight(rctx, h)
+				cancel()
+				rec := hcall{J: j, H: h, Readable: err == nil && g != nil && g.Height() == h, Ret: "nil"}
+				mu.Lock()
+				rec.Call = callNo
+				fail := armed && j == p.FailJ && (h == failAt || (persistent && h >= failAt))
+				if fail {
+					rec.Ret = p.Fail
+				}
+				log = append(log, rec)
+				mu.Unlock()
+				if fail {
+					switch p.Fail {
+					case "panic", "panic-from":
+						panic("c14: injected handler panic")
+					case "panic-int":
+						panic(h)
+					case "panic-struct":
+						panic(c14PanicValue{H: h})
+					case "panic-err":
+						panic(fmt.Errorf("c14 panic value: %w", errHandler))
+					}
+					return fmt.Errorf("wrapped: %w", errHandler)
+				}
+				return nil
+			})
+		}
+		switch p.Pre {
+		case "restart":
+			if err := e.stop(); err != nil {
+				c.Violation("stop-fails", fmt.Sprint(err), nil)
+				return
+			}
+			if err := e.start(); err != nil {
+				c.Violation("restart-fails", fmt.Sprint(err), nil)
+				return
+			}
+		case "wipe":
+			s0 := e.snapshot()
+			wctx, wcancel := vctx(time.Hour)
+			werr := e.st.DeleteRange(wctx, s0.tH, s0.hH+1)
+			wcancel()
+			if werr != nil {
+				c.Violation("pre-wipe-fails", fmt.Sprint(werr), nil)
+				return
+			}
+			h := uint64(p.Mix.T0)
+			for _, b := range p.Mix.Batches {
+				var hs []uint64
+				for i := 0; i < b; i++ {
+					hs = append(hs, h)
+					h++
+				}
+				if err := e.appendHs(hs...); err != nil {
+					c.Violation("append-fails", fmt.Sprint(err), nil)
+					return
+				}
+				_ = e.sync()
+			}
+		}
 		before := e.snapshot()
+		if before.empty {
+			c.Violation("populate/empty-store", "store empty before the judged deletion (pre="+p.Pre+")", nil)
+			return
+		}
 		T, H := before.tH, before.hH
-		var from, to uint64
 		switch p.Side {
 		case "prefix":
 			from, to = T, H-1
@@ -104,35 +210,15 @@ func c14Run(c *mon.Case, p c14P) {
 			c.Class("degenerate")
 			return
 		}
-		failAt := from + uint64(p.FailH)
-		var mu sync.Mutex
-		var log []hcall
-		callNo := 0
-		armed := p.Fail != "none"
-		for j := 0; j < p.Handlers; j++ {
-			j := j
-			e.st.OnDelete(func(ctx context.Context, h uint64) error {
-				rctx, cancel := context.WithTimeout(ctx, 20*time.Millisecond)
-				g, err := e.st.GetByHeight(rctx, h)
-				cancel()
-				rec := hcall{J: j, H: h, Readable: err == nil && g != nil && g.Height() == h, Ret: "nil"}
-				mu.Lock()
-				rec.Call = callNo
-				fail := armed && j == p.FailJ && (h == failAt || (p.Fail == "error-from" && h >= failAt))
-				if fail {
-					rec.Ret = p.Fail
-				}
-				log = append(log, rec)
-				mu.Unlock()
-				if fail {
-					if p.Fail == "panic" {
-						panic("c14: injected handler panic")
-					}
-					return fmt.Errorf("wrapped: %w", errHandler)
-				}
-				return nil
-			})
+		mu.Lock()
+		failAt = from + uint64(p.FailH)
+		if failAt >= to {
+			failAt = to - 1
 		}
+		callNo = 0
+		armed = p.Fail != "none"
+		log = nil
+		mu.Unlock()
 		parallel := p.Mix.Par > 0 && int(to-from) >= p.Mix.Par
 		flushedTag := "flushed"
 		for h := from; h < to; h++ {
@@ -141,10 +227,23 @@ func c14Run(c *mon.Case, p c14P) {
 			}
 		}
 		shape := fmt.Sprintf("%s/%s", p.Side, map[bool]string{true: "parallel", false: "sequential"}[parallel])
-		c.Class("%s flavour=%s wb=%d restart=%v %s handlers=%d fail=%s@j%d", shape, p.Mix.Cfg.Flavour, p.Mix.Cfg.WB, p.Mix.Restart, flushedTag, p.Handlers, p.Fail, p.FailJ)
+		c.Class("%s flavour=%s wb=%d restart=%v pre=%s n=%d %s handlers=%d fail=%s@j%d", shape, p.Mix.Cfg.Flavour, p.Mix.Cfg.WB, p.Mix.Restart, p.Pre, min(p.Mix.n(), 100), flushedTag, p.Handlers, p.Fail, p.FailJ)
 
+		// the call runs beside a (virtual) watchdog: with handlers that return at once it has to come back
 		ctx, cancel := vctx(time.Hour)
-		err := e.st.DeleteRange(ctx, from, to)
+		var err error
+		done := make(chan struct{})
+		go func() {
+			defer close(done)
+			err = e.st.DeleteRange(ctx, from, to)
+		}()
+		select {
+		case <-done:
+		case <-time.After(3 * time.Hour):
+			c.Violation("delete-range-does-not-return/"+shape+"/fail="+p.Fail, fmt.Sprintf("DeleteRange(%d,%d) has not returned 3 virtual hours after the call (context deadline 1 h), all handlers return immediately", from, to), nil)
+			cancel()
+			return
+		}
 		cancel()
 		synctest.Wait()
 		c.Count("delete_calls", 1)
@@ -168,7 +267,7 @@ func c14Run(c *mon.Case, p c14P) {
 			cnt := map[key]int{}
 			failedIn := map[[2]uint64]bool{} // (call, h)
 			for _, r := range log {
-				if r.Call > upto {
+				if r.Call > upto || r.Call < 0 {
 					continue
 				}
 				cnt[key{r.Call, r.J, r.H}]++
@@ -251,9 +350,9 @@ func c14Run(c *mon.Case, p c14P) {
 		// a handler failed at failAt
 		if err == nil {
 			c.Violation("handler-failure-not-reported/"+shape+"/fail="+p.Fail, fmt.Sprintf("handler %d failed (%s) at height %d but DeleteRange returned nil", p.FailJ, p.Fail, failAt), nil)
-		} else if (p.Fail == "error" || p.Fail == "error-from") && !errors.Is(err, errHandler) {
+		} else if (p.Fail == "error" || p.Fail == "error-from" || p.Fail == "panic-err") && !errors.Is(err, errHandler) && !isPanic {
 			c.Violation("handler-error-not-wrapped/"+shape, fmt.Sprintf("DeleteRange error does not wrap the handler's error: %v", err), nil)
-		} else if p.Fail == "panic" && !strings.Contains(err.Error(), "panic") {
+		} else if isPanic && !strings.Contains(err.Error(), "panic") {
 			c.Violation("handler-panic-not-reported/"+shape, fmt.Sprintf("DeleteRange error does not mention the handler panic: %.200s", err.Error()), nil)
 		}
 		if D[failAt] || !after.byHeight[failAt] {
